@@ -3,9 +3,10 @@ SPEC = {
     "n": {"quick": 400, "thorough": 12000},
     "components": {"1": "MergeIntrospectionSchemas result (canonical JSON) or error",
                    "2": "ConvertVersionedSchemas FieldInfo.Services per (type, field)",
-                   "3": "graphql.PrepareQuery verdict of each version's built schema on each generated query"},
+                   "3": "graphql.PrepareQuery verdict of each version's built schema on each generated query",
+                   "4": "ConvertVersionedSchemas federation-key verdict (accepted / 'Invalid federation key') vs fedkeys_ok"},
     "corr_name": "Federation.Merge (merge_all, field_services, valid_query) vs federation.MergeIntrospectionSchemas / ConvertVersionedSchemas / graphql.PrepareQuery",
-    "coq_modules": ["Federation.Merge"],
+    "coq_modules": ["Federation.Merge", "Federation.MergeProofsKeys"],
     "search": {"n": 6000, "timeout": 600},
     "trusted_base": [
         "Coq 8.16.1 kernel and vm_compute (no native_compute); Print Assumptions: closed under the global context",
